@@ -265,11 +265,15 @@ fn read_cases(ctx: &mut Ctx) {
         let mut rng: Rng = ctx.rng(0xC07_800 + i as u64);
         ctx.count(&format!("read.{}", t), 1);
         let opts = QOpts { iter_limit: 3000, ..QOpts::default() };
+        let wrapped = content.get("wrap").map(|w| w == "option").unwrap_or(false);
+        if wrapped { ctx.count("read.as_option_body", 1); }
         macro_rules! load {
             ($T:ty, $sig:expr) => {
-                match guard(|| { let mut r: &[u8] = &bytes; let x = <$T>::load(&mut r); (x, r.len()) }) {
-                    Ok((Ok(x), left)) => { ctx.checks += 1; if left != 0 { ctx.violation(&format!("foreign.{}.consumed", $sig), format!("{} bytes left after loading {}", left, base)); } Some(x) },
-                    Ok((Err(e), _)) => { ctx.violation(&format!("foreign.{}.rejected", $sig), format!("document-conformant file {} ({}) was rejected: {}", base, content_summary(&content), e)); None },
+                // The same structure either bare or (every third file) as the body of an optional structure.
+                match guard(|| { let mut r: &[u8] = &bytes; let x = if wrapped { <Option<$T>>::load(&mut r) } else { <$T>::load(&mut r).map(Some) }; (x, r.len()) }) {
+                    Ok((Ok(Some(x)), left)) => { ctx.checks += 1; if left != 0 { ctx.violation(&format!("foreign.{}.consumed", $sig), format!("{} bytes left after loading {}", left, base)); } Some(x) },
+                    Ok((Ok(None), _)) => { ctx.violation(&format!("foreign.{}.option_none", $sig), format!("document-conformant optional structure {} ({}) was loaded as None", base, content_summary(&content))); None },
+                    Ok((Err(e), _)) => { ctx.violation(&format!("foreign.{}.rejected", $sig), format!("document-conformant file {}{} ({}) was rejected: {}", base, if wrapped { " (an optional structure)" } else { "" }, content_summary(&content), e)); None },
                     Err(p) => { ctx.violation(&format!("foreign.{}.load!panic", $sig), format!("loading {} ({}) panicked: {}", base, content_summary(&content), p)); None },
                 }
             };
